@@ -197,7 +197,7 @@ def run(n_prod, writes, fail_at, oracle, max_steps=3000, abort_first=False):
     coop.set_scheduler(sched)
     wrapped = make_wrapped(fail_at)
     cas = m.AsyncRecordOnlyTapeCassette(wrapped, flush_interval=0.1, timeout_on_close=10)
-    wrapped.lock = cas._lock
+    wrapped.lock = getattr(cas, '_lock', None)      # (an implementation without this lock is judged by the other clauses)
     requested = {}
 
     def workload(pid):
